@@ -138,7 +138,7 @@ def gen_related(rng, multi_axis=True):
     N = rng.randint(1, 8)
     pattern = rng.choice(["AA", "AA", "ABA", "AAA", "AB-A", "A-twin", "A-twin-reordered", "AZ", "ZA", "AZA", "ZZ"])
     npos = {"AA": 2, "ABA": 3, "AAA": 3, "AB-A": 3, "A-twin": 2, "A-twin-reordered": 2, "AZ": 2, "ZA": 2, "AZA": 3, "ZZ": 2}[pattern]
-    nA = sum(1 for ch in pattern.replace("-twin", "A").replace("-reordered", "").replace("-A", "A") if ch == "A")
+    nA = {"AA": 2, "ABA": 2, "AAA": 3, "AB-A": 2, "A-twin": 2, "A-twin-reordered": 2, "AZ": 1, "ZA": 1, "AZA": 2, "ZZ": 0}[pattern]
     hshape = ()
     if multi_axis:
         hshape = rng.choice([(), (2,), (3,), (2, 2), (2,)]) if nA <= 2 else rng.choice([(), (2,), (2,)])
